@@ -1,4 +1,4 @@
-(* C12 driver: scenario = <time> <n> <arg>*n <nopts> <opt>*  ; see checks/C12.py for the annotation grammar;
+(* C12 driver: scenario = <time> <n> <arg>*n <nopts> <opt>*  |  :seq ... (below); see checks/C12.py for the annotation grammar;
    observation = parse part (:rej .. | :ok ..) followed, for an accepted vector, by the applied part (:skip | :app ..) *)
 let fk = function 0 -> FContains | 1 -> FStrict | 2 -> FExclude | 3 -> FExcludeStrict | _ -> raise (Bad "filter kind")
 let optdigits c = optbytes_tok (next c)
@@ -42,10 +42,34 @@ let papplied = function
                          @ [pbytes text; Printf.sprintf "%x" (List.length reps)]
                          @ List.concat_map (fun r -> [pn r.r_level; pbool r.r_color; pnlist r.r_seeds; pnlist r.r_started; pnlist r.r_ran; pnlist r.r_sep]) reps)
 let pxobs x = match x.x_applied with None -> pobs x.x_parse | Some a -> pobs x.x_parse ^ " " ^ papplied a
+(* the second scenario kind:  :seq <tm> <np> {<name> <kind>} <fail mask> <k> {<n> {<arg>}} {<nopts> {<opt>}}   (k vectors, then k annotations)
+   observation:  :seq { :big | :c <printed> <srand calls> <n> {ran} <m> {tag} } ( :end | :hang | :died ) *)
+let seq_scenario ts =
+  let c = { rest = ts } in
+  let tm = n_tok (next c) in
+  let ps = counted c (fun c -> let nm = n_tok (next c) in (nm, n_tok (next c))) in
+  let mask = n_tok (next c) in
+  let k = int_tok (next c) in
+  let vs = many c k (fun c -> counted c (fun c -> bytes_tok (next c))) in
+  let os = if at_end c then List.map (fun _ -> []) vs else many c k (fun c -> counted c opt) in
+  if not (at_end c) then raise (Bad "trailing tokens") else
+  SSequence (tm, ps, mask, List.combine vs os)
+let pprinted = function PNothing -> "0" | PUsage -> "1" | PHelp -> "2" | POther -> "3"
+let pcall = function
+  | CBig -> ":big"
+  | CCall (p, seeds, ran, tags) -> String.concat " " [":c"; pprinted p; pn seeds; pnlist ran; pnlist tags]
+let pfinish = function FEnd -> ":end" | FHang -> ":hang" | FDied -> ":died"
+let pyobs = function
+  | YVector x -> pxobs x
+  | YSequence (calls, fin) -> String.concat " " ([":seq"] @ List.map pcall calls @ [pfinish fin])
+let scenario_of ts =
+  match ts with
+  | ":seq" :: r -> seq_scenario r
+  | _ -> let (tm, argv, opts) = scenario ts in SVector (tm, argv, opts)
 let run_line ts =
-  let (tm, argv, _) = scenario ts in
-  if not (valid tm argv) then raise (Bad "scenario is not valid (NUL/non-byte in an argument, or more than 9 digits handed to AtoI)")
-  else pxobs (xrun tm argv)
+  let s = scenario_of ts in
+  if not (yvalid s) then raise (Bad "scenario is not valid (NUL/non-byte in an argument, or more than 9 digits handed to AtoI)")
+  else pyobs (yrun s)
 let filters c = counted c (fun c -> let p = bytes_tok (next c) in let s = bool_tok (next c) in { f_pat = p; f_strict = s; f_invert = bool_tok (next c) })
 let obs_of_cur c =
   match next c with
@@ -84,9 +108,26 @@ let xobs_of os =
   let o = obs_of_cur c in
   let a = applied_of c in
   if not (at_end c) then raise (Bad "trailing tokens") else { x_parse = o; x_applied = a }
+let yobs_of os =
+  match os with
+  | ":seq" :: r ->
+      let c = { rest = r } in
+      let nlist c = counted c (fun c -> n_tok (next c)) in
+      let rec calls acc =
+        match next c with
+        | ":big" -> calls (CBig :: acc)
+        | ":c" ->
+            let p = (match next c with "0" -> PNothing | "1" -> PUsage | "2" -> PHelp | _ -> POther) in
+            let seeds = n_tok (next c) in let ran = nlist c in let tags = nlist c in
+            calls (CCall (p, seeds, ran, tags) :: acc)
+        | ":end" -> (List.rev acc, FEnd) | ":hang" -> (List.rev acc, FHang) | ":died" -> (List.rev acc, FDied)
+        | t -> raise (Bad ("call " ^ t)) in
+      let (cs, fin) = calls [] in
+      if not (at_end c) then raise (Bad "trailing tokens") else YSequence (cs, fin)
+  | _ -> YVector (xobs_of os)
 let spec_line ts os =
-  let (tm, argv, opts) = scenario ts in
-  if not (valid tm argv) then true else
-  match (try Some (xobs_of os) with _ -> None) with
-  | Some x -> xspec tm argv opts x
+  let s = scenario_of ts in
+  if not (yvalid s) then true else
+  match (try Some (yobs_of os) with _ -> None) with
+  | Some y -> yspec s y
   | None -> false
